@@ -236,10 +236,16 @@ Definition position_handler_names : list string := map mt_handler position_msgs.
    may return ok only as a no-op; a rejected message changes nothing *)
 Definition handler_signer_keyed (n : string) : bool :=
   existsb (fun m => String.eqb (mt_handler m) n && mem (mt_qname m) signer_keyed_msgs) msg_types.
-Definition holds_C12_owner (handler_name : string) (signer_is_owner ok changed : bool) : bool :=
+(* [signer_has_positions]: the signer is itself one of the position owners of the fixture (it owns
+   a position of every kind, with other ids); [victim_changed]: a balance or a position record of
+   the owner whose positions the message names changed.  A signer-keyed message of another position
+   owner acts on that signer's own records: it may succeed, but must leave the named owner's alone. *)
+Definition holds_C12_owner (handler_name : string) (signer_is_owner signer_has_positions ok changed victim_changed : bool) : bool :=
   (ok || negb changed) &&
   (signer_is_owner || negb (handler_position_msg handler_name) ||
-   (if handler_signer_keyed handler_name then negb ok || negb changed else negb ok)).
+   (if handler_signer_keyed handler_name
+    then negb ok || (if signer_has_positions then negb victim_changed else negb changed)
+    else negb ok)).
 
 (* C12 wasm: on a named network an accepted custom message comes from the designated contract *)
 Definition holds_C12_wasm (variant chain sender : string) (accepted changed : bool) : bool :=
